@@ -677,4 +677,69 @@ theorem numOfNRes_convertDefault (p : Parts) (hwf : PartsWF p) :
   | parts pos s e => simp only [resOfParts]; cases FD.f64FromParts pos s e <;> rfl
   | expOverflow pos z pe => simp only [resOfParts]; cases FD.parseExponentOverflow pos z pe <;> rfl
 
+/-! ## Integer results come from integer literals only -/
+
+/-- not `ParserNumber::U64` / `I64` -/
+def FloatPath (q : Model.FloatDefault.Parts) : Prop := (∀ n, q ≠ .u64 n) ∧ (∀ k, q ≠ .i64 k)
+
+theorem parseExponent_floatPath (l : NumLit) (positive : Bool) (s : Nat) (st : Int) :
+    FloatPath (FD.parseExponent l positive s st) := by
+  unfold Model.FloatDefault.parseExponent
+  split
+  · constructor <;> (intro _ h; cases h)
+  · split <;> (constructor <;> (intro _ h; cases h))
+
+theorem parseDecimal_floatPath (l : NumLit) (positive : Bool) (s : Nat) (eb : Int) :
+    FloatPath (FD.parseDecimal l positive s eb) := by
+  unfold Model.FloatDefault.parseDecimal
+  simp only
+  split
+  · constructor <;> (intro _ h; cases h)
+  · exact parseExponent_floatPath ..
+
+/-- a fraction or an exponent puts the literal on the float path -/
+theorem partsOfLiteral_floatPath (l : NumLit) (h : l.fracDigits ≠ [] ∨ l.expDigits ≠ []) :
+    FloatPath (FD.partsOfLiteral l) := by
+  unfold Model.FloatDefault.partsOfLiteral
+  simp only
+  split
+  · constructor <;> (intro _ h; cases h)
+  · split
+    · constructor <;> (intro _ h; cases h)
+    · split
+      · exact parseDecimal_floatPath ..
+      · split
+        · exact parseExponent_floatPath ..
+        · rename_i hf he
+          exfalso
+          rcases h with h | h
+          · apply h; simpa using hf
+          · apply h; simpa using he
+
+theorem numOfLit_pos (l : NumLit) (n : Nat) (h : numOfLit l = some (.pos n)) :
+    FD.partsOfLiteral l = .u64 n := by
+  unfold numOfLit at h
+  cases hp : FD.partsOfLiteral l <;> rw [hp] at h <;> simp only at h
+  case u64 m => simp only [Option.some.injEq, Num.pos.injEq] at h; rw [h]
+  all_goals first
+    | (cases h)
+    | (simp only [Option.map_eq_some_iff] at h; obtain ⟨_, _, h⟩ := h; cases h)
+
+theorem numOfLit_neg (l : NumLit) (k : Int) (h : numOfLit l = some (.neg k)) :
+    FD.partsOfLiteral l = .i64 k := by
+  unfold numOfLit at h
+  cases hp : FD.partsOfLiteral l <;> rw [hp] at h <;> simp only at h
+  case i64 m => simp only [Option.some.injEq, Num.neg.injEq] at h; rw [h]
+  all_goals first
+    | (cases h)
+    | (simp only [Option.map_eq_some_iff] at h; obtain ⟨_, _, h⟩ := h; cases h)
+
+theorem numOfLit_ne_lit (l : NumLit) (t : Bytes) : numOfLit l ≠ some (.lit t) := by
+  intro h
+  unfold numOfLit at h
+  cases hp : FD.partsOfLiteral l <;> rw [hp] at h <;> simp only at h
+  all_goals first
+    | (cases h)
+    | (simp only [Option.map_eq_some_iff] at h; obtain ⟨_, _, h⟩ := h; cases h)
+
 end SJ.Proofs.NumLink
